@@ -58,7 +58,11 @@ var entryPoints = map[string]func(b []byte) callResult{
 	"version.Parse": func(b []byte) callResult {
 		v, err := version.Parse(string(b))
 		if err != nil {
-			return callResult{Err: true}
+			r := callResult{Err: true}
+			if v != (version.Version{}) {
+				r.ValWithE = fmt.Sprintf("version.Parse returned the error %q together with the usable value %#v (it prints as %q)", err.Error(), v, v.String())
+			}
+			return r
 		}
 		return callResult{Val: v}
 	},
@@ -291,7 +295,7 @@ func genParserInput(t *rapid.T, ep string) ParserInput {
 
 var specC18Total = Register(&Spec[ParserInput]{
 	Prop: "C18", Name: "total",
-	Rule: "for each of 13 parser entry points (version.Parse; dependency.Parse / ParseArch / ParseArchitectures; ParagraphReader.All; ParseDsc, ParseChanges, ParseControl, ParseBinaryIndex, ParseSourceIndex, Unmarshal(&deb.Control); changelog.Parse / ParseOne) inputs from that parser's own grammar generator (4/20), line- and byte-level mutations and truncations of them (14/20), raw bytes (1/21), a valid input repeated up to 64 KiB (1/21), and inputs whose total length or last-line length is exactly 4096*k-1, 4096*k or 4096*k+1 with and without a final newline (1/21). Oracle: the call returns within 60 s without panicking; when it returns an error no pointer/slice/map result is non-nil and non-empty; a second call - made after 0..2 other generated inputs (often failing ones) went through the same entry point - gives a deeply equal value and the same error-ness. Non-trivial: grammar-derived input (valid, mutated or big); distinct by (entry point, bytes).",
+	Rule: "for each of 13 parser entry points (version.Parse; dependency.Parse / ParseArch / ParseArchitectures; ParagraphReader.All; ParseDsc, ParseChanges, ParseControl, ParseBinaryIndex, ParseSourceIndex, Unmarshal(&deb.Control); changelog.Parse / ParseOne) inputs from that parser's own grammar generator (4/20), line- and byte-level mutations and truncations of them (14/20), raw bytes (1/21), a valid input repeated up to 64 KiB (1/21), and inputs whose total length or last-line length is exactly 4096*k-1, 4096*k or 4096*k+1 with and without a final newline (1/21). Oracle: the call returns within 60 s without panicking; when it returns an error no pointer/slice/map result is non-nil and non-empty and a struct result (version.Parse) is the zero value; a second call - made after 0..2 other generated inputs (often failing ones) went through the same entry point - gives a deeply equal value and the same error-ness. Non-trivial: grammar-derived input (valid, mutated or big); distinct by (entry point, bytes).",
 	Check: checkParserInput,
 })
 
